@@ -48,6 +48,11 @@ def h_hist(ex, ops, seed_key=True, client='facade', timeout=1, app_delay=None):
         elif need_key:
             client_obj.set_seed_key_algorithm(key_from_seed)
             rig.sma.server.set_seed_key_algorithm(key_from_seed)
+        saved_delay = rig.app_delay
+        if kind == 'late':
+            # the serving application answers only after the caller's timeout: for the caller the server did not answer;
+            # the late answer then completes the transaction in the background
+            rig.app_delay = tmo + Fraction(1, 5)
         if kind == 'refuse_proceed':
             rig.plan = {'proceed': False}
         elif kind == 'refuse_respond':
@@ -76,6 +81,7 @@ def h_hist(ex, ops, seed_key=True, client='facade', timeout=1, app_delay=None):
             err = e
         t_ret = w.now
         rig.settle('1/2')
+        rig.app_delay = saved_delay
         if hook is not None:
             w.frame_hooks.remove(hook)
         if kind in ('error_dm15', 'absent'):
@@ -88,7 +94,7 @@ def h_hist(ex, ops, seed_key=True, client='facade', timeout=1, app_delay=None):
             expected = key_from_seed(rig.seeds[n_seeds]) if len(rig.seeds) > n_seeds else None    # the seed this request was sent
             key_ok = bool(wrong == expected)      # split by the solver into = / != expected
             info['key_matches'] = key_ok
-        failing = kind in ('refuse_proceed', 'refuse_respond', 'error_dm15', 'absent') or (kind == 'wrong_key' and not key_ok)
+        failing = kind in ('refuse_proceed', 'refuse_respond', 'error_dm15', 'absent', 'late') or (kind == 'wrong_key' and not key_ok)
         # the application is consulted, and data served, only for an exchange whose key matches the seed that was sent
         # (after a wrong key the client may answer later seeds too: every such exchange is judged on its own seed)
         if need_key:
@@ -141,7 +147,7 @@ def jobs(tier):
         p['ops'] = ops
         out.append(Job('C18', 'c18:h_hist', p, W=96, wall=wall if q else 1800, max_paths=20000, validate=1))
 
-    fails = [['wrong_key'], ['refuse_proceed'], ['refuse_respond', 0x21], ['error_dm15', 0x101], ['absent']]
+    fails = [['wrong_key'], ['refuse_proceed'], ['refuse_respond', 0x21], ['error_dm15', 0x101], ['absent'], ['late']]
     for rw in ('read', 'write'):
         for f in fails:
             for rw2 in ('read', 'write'):
